@@ -21,7 +21,8 @@ RULE = (
     "VDI/vdi/VMDK/VHD/absent and types Normal/Immutable/Writethrough/absent, DVD and floppy images, default or prefixed "
     "namespace. PVS: Hdd/CdRom/Fdd/NetworkAdapter lists with or without SystemName. Oracle: disks() equals the model's hard "
     "disk backing files (VMX sorted, XML kinds in document order) and VMX.parse().attr equals the lower-cased last-wins "
-    "dictionary. Non-trivial = >= 1 disk and >= 1 non-disk device."
+    "dictionary; a second disks() call (optionally after peeking at the first entry, optionally after a second configuration "
+    "of the same kind was parsed and listed) gives the same list. Non-trivial = >= 1 disk and >= 1 non-disk device."
 )
 ASSUMPTIONS = [
     "VMX values have no leading/trailing spaces or quotes (the dictionary format strips them) and every device key has a property part",
@@ -188,7 +189,13 @@ def pvs_spec(draw):
 @st.composite
 def strategy_(draw, tier):
     k = draw(st.sampled_from(KINDS))
-    return draw({"vmx": vmx_spec(), "ovf": ovf_spec(), "vbox": vbox_spec(), "pvs": pvs_spec()}[k])
+    gen = {"vmx": vmx_spec(), "ovf": ovf_spec(), "vbox": vbox_spec(), "pvs": pvs_spec()}[k]
+    spec = draw(gen)
+    # listing is repeatable, and one configuration's answer does not depend on others parsed in the same process
+    spec["peek_first"] = draw(st.sampled_from([False, False, True]))
+    if draw(st.integers(0, 2)) == 0:
+        spec["companion"] = draw(gen)
+    return spec
 
 
 def strategy(tier):
@@ -243,6 +250,18 @@ def check(spec) -> Outcome:
             return out
         if list(got) != exp:
             out.fail("mismatch|vmx-disks", f"disks() {list(got)} != {exp}")
+        if spec.get("companion"):
+            c = spec["companion"]
+            v2, err = lib(VMX.parse, bx.vmx_text(c["lines"], c["style"]))
+            if not err:
+                exp2 = vmx_expected_disks(bx.vmx_model(c["lines"]))
+                got2, err = lib(lambda: list(v2.disks()))
+                if not err and got2 != exp2:
+                    out.fail("mismatch|vmx-disks-second", f"second configuration: disks() {got2} != {exp2}")
+            out.cls("with-companion")
+        again, err = lib(lambda: list(v.disks()))
+        if err or again != exp:
+            out.fail("mismatch|vmx-disks-again", f"a later disks() call gave {again if not err else err.describe()}, expected {exp}")
         nondisk = any(ln[0] == "kv" and ln[1].lower().endswith(".devicetype") and "disk" not in ln[2].lower() for ln in spec["lines"])
         out.nontrivial = bool(exp) and nondisk
         out.cls(f"vmx-disks={min(len(exp), 3)}")
@@ -252,12 +271,28 @@ def check(spec) -> Outcome:
     if err:
         out.fail(err.sig(kind + "-parse"), f"{kind} parser raised {err.describe()}")
         return out
+    if spec.get("peek_first"):
+        first, err = lib(lambda: next(iter(obj.disks()), None))
+        if not err and first != (exp[0] if exp else None):
+            out.fail(f"mismatch|{kind}-disks-peek", f"first listed disk {first!r}, expected {exp[:1]}")
+        out.cls("peek-first")
     got, err = lib(lambda: list(obj.disks()))
     if err:
         out.fail(err.sig(kind + "-disks"), f"disks() raised {err.describe()}")
         return out
     if got != exp:
         out.fail(f"mismatch|{kind}-disks", f"disks() {got} != {exp}")
+    if spec.get("companion"):
+        text2, exp2 = document(spec["companion"])
+        obj2, err = lib(parse, kind, text2)
+        if not err:
+            got2, err = lib(lambda: list(obj2.disks()))
+            if not err and got2 != exp2:
+                out.fail(f"mismatch|{kind}-disks-second", f"second configuration: disks() {got2} != {exp2}")
+        out.cls("with-companion")
+    again, err = lib(lambda: list(obj.disks()))
+    if err or again != exp:
+        out.fail(f"mismatch|{kind}-disks-again", f"a later disks() call gave {again if not err else err.describe()}, expected {exp}")
     if kind == "ovf":
         out.nontrivial = bool(exp) and any(it["rt"] != 17 for it in spec["items"])
     elif kind == "vbox":
